@@ -174,6 +174,15 @@ func (r *BinaryCopyReader) Read(ctx context.Context) (_ []any, err error) {
 		return nil, err
 	}
 
+	// NOTE: the end-of-data trailer consists of a field count holding -1.
+	if fields == math.MaxUint16 {
+		return nil, io.EOF
+	}
+
+	if int(fields) != len(r.scanners) {
+		return nil, fmt.Errorf("unexpected number of fields, %d columns are defined inside the given table but the row contains %d fields", len(r.scanners), fields)
+	}
+
 	row := make([]any, fields)
 	for index := range fields {
 		length, err := r.reader.GetUint32()
